@@ -96,7 +96,7 @@ Section Promote.
     eapply (promote_loop okp (IR (S f) body fwd) s (step_inv ix h fwd) mn mx gr egs ege (Hb f)); [|exact Hz|exact Hx|left; reflexivity|exact E].
     intros q q' Hq0 Esq. pose proof (Hstep body fwd s q q' H1 Hq0 Es Esq) as Hc.
     split; [exact Hc|]. split; [apply (step_inv_neq fwd); exact Hc|].
-    eapply (al_step ix unicode utf16 h okp body (negb fwd) fwd s Ha Es); eauto.
+    eapply (al_step ix unicode utf16 h okp body fwd s Ha Es); eauto.
   Qed.
 
   Lemma promote_sound lb n a : promote_1char_loops lb n = Ok a -> PRel lb n (act_node a n).
